@@ -635,6 +635,7 @@ class ModelHistory:
         self.expected = []       # per HRun: dict
         self.trees = {}          # record index -> (root, nodes, order)
         self.problems = []       # harness-level problems (unparsable output ...)
+        self.outside = None      # (reason, record index) when the model stops following the history
         self.build()
 
     def hexl(self, hx_):
@@ -715,6 +716,16 @@ class ModelHistory:
                 break
             ref = h.refs[step["state"]]
             root, nodes, order = build_tree(snap, h.states[step["state"]], rec["wsabs"], rec["fphost"], rec["regex"])
+            # the builder keys checkout state (__srcBuildIds, _wasAlreadyRun) by the checkout step's workspace;
+            # the model keys it by package node: two package nodes sharing one checkout step (variants that
+            # differ only after checkout) are outside what the model states -> follow the history up to here only
+            srcs = {}
+            for n in order:
+                if n["has_src"] and n["srcpath"]:
+                    srcs.setdefault(n["srcpath"], set()).add(n["id"])
+            if any(len(v) > 1 for v in srcs.values()):
+                self.outside = ("shared-checkout", k)
+                break
             self.trees[k] = (root, nodes, order)
             self.emit_tree(k, root, order, ref)
             fl = h.flags[step["ws"]]
@@ -1188,6 +1199,8 @@ def process(ctx, hs):
         for r in h.records:
             if r["step"]["op"] == "tamper" and r.get("applied"):
                 ctx.count("tamper:" + r["step"]["kind"])
+        if mh.outside:
+            ctx.count("histories-followed-partly:" + mh.outside[0])
         for p in mh.problems:
             ctx.tie_broken("c07-" + p[0], {"history": h.to_json(), "step": p[1], "detail": p[2]})
         try:
